@@ -9,6 +9,7 @@ import torch
 from vlib import geom
 
 PROPERTY = "C09"
+TECHNIQUE = 'enumeration of bounded operation histories; each history executed concolically on the real code with symbolic parameters / conditioning / points and decided by z3 against a freshly constructed transform'
 EXPLANATION = (
     "Bounded symbolic execution + SMT over enumerated histories. For every stateful transformation class (dense displacement / velocity "
     "fields, free-form deformations, callable parameters, linked inverses, composites) every history of bounded length over {set data, in-place "
